@@ -196,7 +196,7 @@ def real_label(tid, label, result):
 
 def modelled_steps(fr):
     out = []
-    for name, label, result, enabled in fr.trace:
+    for name, label, result, enabled, _now in fr.trace:
         tid = tid_of(name)
         if tid is None:
             continue
@@ -318,7 +318,7 @@ def explore(run, focus, n_random):
         else:
             base, kind = dsched.random_chooser(r2), "random"
         fr = run_real(sc, base)
-        cj = {"scenario": sc.to_json(), "chooser": kind, "seed": seed, "schedule": [nm for nm, _, _, _ in fr.trace]}
+        cj = {"scenario": sc.to_json(), "chooser": kind, "seed": seed, "schedule": [e[0] for e in fr.trace]}
         run.count("structured" if structured else "chaotic")
         run.count("outcome " + str(fr.outcome))
         oracle(run, focus, sc, fr, cj, structured)
